@@ -91,6 +91,9 @@ class Check(HCheck):
                 ctx.fail("network-transpose", "inbound network (include_auto=%s) %r is not the transpose of the outbound one %r" % (auto, i, o))
             if strip(t.get_webentities_inlinks(include_auto=auto)) != i or strip(t.get_webentities_outlinks(include_auto=auto)) != o:
                 ctx.fail("network-alias", "get_webentities_inlinks/outlinks disagree with get_webentities_links (include_auto=%s)" % auto)
+            for alt in (0, None):
+                if strip(t.get_webentities_links(out=alt, include_auto=auto)) != i or strip(t.get_webentities_links_slow(out=alt, include_auto=auto)) != i:
+                    ctx.fail("network-direction-arg", "get_webentities_links[_slow](out=%r) differs from the inbound network (include_auto=%s)" % (alt, auto))
             from traph.traph_iterator_state import run_iterator
             if strip(run_iterator(t.get_webentities_inlinks_iter(include_auto=auto))) != i or strip(run_iterator(t.get_webentities_outlinks_iter(include_auto=auto))) != o:
                 ctx.fail("network-alias-iter", "get_webentities_inlinks_iter/outlinks_iter disagree with get_webentities_links (include_auto=%s)" % auto)
